@@ -65,8 +65,51 @@ def role_of(fn, op):
     return "other", e
 
 
+ID_PLUMBING = [
+    # (function name regex with the id type as group 1, accepted printed results (& * removed); the engine prints the id
+    #  conversions of the crate (new / id / as_usize / From) as the identity, so `Id(self.0 + rhs)` may also print `(self.0 + rhs)`)
+    (r"^internal::ids::(\w+)::new$", r"^(\1\()?index\)?$", None),
+    (r"^internal::ids::(\w+)::id$", r"^self(\.0)?$", None),
+    (r"^internal::ids::(\w+)::as_usize$", r"^\(?self(\.0)?( as usize)?\)?$", None),
+    (r"^<internal::ids::(\w+) as std::convert::From<\w+>>::from$", r"^(\1\()?index\)?$", None),
+    (r"^<internal::ids::(\w+) as std::ops::Add<\w+>>::add$", r"^(\1\()?\(self(\.0)? \+ rhs\)\)?$", None),
+    (r"^<internal::ids::(\w+) as std::ops::AddAssign<\w+>>::add_assign$", r"^\('unit',\)$", r"^(\w+\()?\(self(\.0)? \+ rhs\)\)?$"),
+    (r"^internal::ids::<impl std::ops::Index(?:Mut)?<internal::ids::(\w+)> for (?:\[T\]|std::vec::Vec<T>)>::index(?:_mut)?$", r"^self\.\(?index(\.0)?( as usize)?\)?$", None),
+]
+
+
+def id_plumbing(ctx, rule):
+    """The id newtypes are plain numbers: constructors store the number, getters return it, `+` adds, indexing uses it as it
+    is (the macro in ids.rs writes these by hand for every id type; the derived comparison impls are C02.n)."""
+    from . import symex as S
+    from .common import run_fn, ret_paths, BaseModel
+    F = ctx.facts
+    n = 0
+    for fn in sorted(F.fns.values(), key=lambda f: f.name):
+        for rx, want_ret, want_write in ID_PLUMBING:
+            m = re.match(rx, fn.name)
+            if not m:
+                continue
+            n += 1
+            ex, ps = run_fn(fn, F, BaseModel())
+            rp = ret_paths(ps)
+            rets = [re.sub(r"[&*]", "", S.fstr(p.end[1])) for p in rp]
+            wrx = re.compile(want_ret.replace("\\1", re.escape(m.group(1))))
+            ok = len(ps) == 1 and len(rp) == 1 and wrx.match(rets[0]) is not None
+            ws = [re.sub(r"[&*]", "", S.fstr(e[4])) for p in ps for e in p.events if e[0] == "write" and e[2][0] != "local"]
+            if want_write is None:
+                ok = ok and not ws
+            else:
+                ok = ok and len(ws) == 1 and re.match(want_write, ws[0]) is not None
+            ctx.ob(rule, "id-plumbing:%s" % M.short_name(fn.name), ok, "returns %s, writes %s" % (rets, ws or "nothing"), fn.loc())
+    ctx.floor(rule, "hand-written functions of the id newtypes", n, 30)
+
+
 def analyze(ctx, want):
     F = ctx.facts
+    if "C17.a" in want and not getattr(ctx, "_id_plumbing", False):
+        ctx._id_plumbing = True
+        id_plumbing(ctx, "C17.a")
 
     def ob(rule, key, ok, detail, loc=""):
         if rule in want:
